@@ -30,7 +30,10 @@ CANON_ORDER = ("classify", "set-zeta-grid", "set-curvature", "recession", "rise"
 READ_ONLY = ("simulate-rise", "simulate-rise-obs", "pest-rise-tpl", "pest-rise-ins", "pest-rise-pst",
              "pest-curves-tpl", "pest-curves-ins", "pest-curves-pst", "simulate-recession")
 FAILING_VARIANTS = ("rise-offgrid", "recession-offgrid", "rise-absent", "recession-absent",
-                    "classify-badargs", "load-again", "grid-badargs")
+                    "classify-badargs", "load-again", "grid-badargs",
+                    # a step attempted again with OTHER argument values (refused by the singleton tables)
+                    "classify-other", "set-zeta-grid-other", "set-curvature-other",
+                    "set-zeta-grid-other", "set-curvature-other")
 
 
 def fnum(x):
@@ -68,6 +71,12 @@ def _op_argv(op, knobs, load_argv=None):
         return [op.split("-")[0], "{db}", "-r", fnum(g * 0.37)]
     if op in ("rise-absent", "recession-absent"):
         return [op.split("-")[0], "{db}", "-r", fnum(g * 1000000.0)]
+    if op == "classify-other":
+        return ["classify", "{db}", "-s", fnum(s * 1.5 + 0.25), "-j", fnum(j * 0.5 + 0.125)]
+    if op == "set-zeta-grid-other":
+        return ["set-zeta-grid", "{db}", "-d", fnum(knobs.get("grid_other_mm") or (g * 2.0 if g < 4 else g / 4.0))]
+    if op == "set-curvature-other":
+        return ["set-curvature", "{db}", fnum(knobs["curvature"] + 0.375)]
     if op == "classify-badargs":
         return ["classify", "{db}", "-s", "heavy"]
     if op == "grid-badargs":
@@ -95,10 +104,12 @@ def step_of(op):
         return "rise"
     if op in ("recession-offgrid", "recession-absent"):
         return "recession"
-    if op == "classify-badargs":
+    if op in ("classify-badargs", "classify-other"):
         return "classify"
-    if op == "grid-badargs":
+    if op in ("grid-badargs", "set-zeta-grid-other"):
         return "set-zeta-grid"
+    if op == "set-curvature-other":
+        return "set-curvature"
     return None
 
 
@@ -463,6 +474,7 @@ class Trial:
             self.knobs = workload.gen_knobs(rng, self.spec)
             k = self.knobs
             k["parameters"] = rng.choice(["peatclsm", "spline"])
+            k["grid_other_mm"] = rng.choice([x for x in (0.5, 1.0, 2.0, 5.0, 10.0, 0.25, 20.0) if x != k["grid_mm"]])
             k.pop("reference", None)
             # the reference level is an argument of rise and of recession separately: either, both or
             # neither may be given one (a tree in which one curve's origin leaks into the other's only
@@ -664,6 +676,8 @@ class Trial:
                 completed = True
             elif after == post and post != pre:
                 completed = True        # killed or failed after the commit point
+            if completed and step in self.acked and post != pre:
+                self._check_repeated_completion(step, argv, after, detail)
             if completed:
                 self._check_marker(step, argv, self.view, detail, "subject")
                 self.acked[step] = argv
@@ -690,6 +704,33 @@ class Trial:
         if step is not None and (ex.fired or ex.killed) and not completed and after == pre:
             retry = {"ok": t_out.ok, "post": post.digest}
         return ex, retry
+
+    def _check_repeated_completion(self, step, argv, after, detail):
+        """A step that completes although it had completed before (a changed tree
+        may allow that): what it leaves in ITS OWN tables must be the complete
+        result of the step -- i.e. what the same command leaves there when run on
+        the canonical file of the other completed steps -- not a blend with its
+        earlier result."""
+        others = tuple((s, tuple(self.acked[s])) for s in CANON_ORDER if s in self.acked and s != step)
+        ref = os.path.join(self.dir, "repeatref.sqlite")
+        _copy_with_sidecars(self.base, ref)
+        for s, a in others:
+            if step in PREREQ[s]:
+                continue                      # dependants of the repeated step cannot be rebuilt before it
+            ex = execute(ref, list(a), dict(self.knobs, cache_pages=None), None, self.dir)
+            if not ex.outcome.ok:
+                return                        # not comparable; nothing is claimed
+        ex = execute(ref, list(argv), dict(self.knobs, cache_pages=None), None, self.dir)
+        if not ex.outcome.ok:
+            return
+        fresh = self.dump(ref)
+        self.stats["repeated_completions_checked"] += 1
+        differing = [t for t in dump_mod.STEP_TABLES[step] if after.tables.get(t) != fresh.tables.get(t)]
+        if differing:
+            raise Violation("I2-repeated-step-leaves-a-blend-not-the-complete-result",
+                            dict(detail, step=step, tables=differing,
+                                 rows_here={t: after.counts.get(t) for t in differing},
+                                 rows_fresh={t: fresh.counts.get(t) for t in differing}))
 
     def _check_marker(self, step, argv, path, detail, who):
         m = dump_mod.markers(path).get(step)
